@@ -118,10 +118,27 @@ def test_set(repo, mod, test, var, U):
         if isinstance(t, ast.UnaryOp) and isinstance(t.op, ast.Not):
             return go(t.operand).complement()
         if isinstance(t, ast.BoolOp):
+            if isinstance(t.op, ast.And):
+                acc, deferred = full, []
+                for v in t.values:
+                    try:
+                        acc = acc.intersect(go(v))
+                    except Undecidable as e:
+                        if "periodic" in str(e):
+                            deferred.append(v)
+                        else:
+                            raise
+                for v in deferred:
+                    if acc.empty():
+                        break
+                    lo, hi = acc.ivs[0][0], acc.ivs[-1][1]
+                    sub = test_set(repo, mod, v, var, ISet.full(lo, hi))
+                    acc = acc.intersect(ISet(sub.ivs, U.lo, U.hi))
+                return acc
             sets = [go(v) for v in t.values]
             acc = sets[0]
             for s in sets[1:]:
-                acc = acc.intersect(s) if isinstance(t.op, ast.And) else acc.union(s)
+                acc = acc.union(s)
             return acc
         if isinstance(t, ast.Compare):
             operands = [t.left] + list(t.comparators)
